@@ -74,8 +74,17 @@ pub fn run_into(rep: &Report) {
             }
             c.args(["-q", "-j1", "-r", "."]);
             c.current_dir(b.base()).env_remove("TXTPP_FILE").stdout(std::process::Stdio::null()).stderr(std::process::Stdio::null());
-            let st = c.status().expect("strace");
+            let (st, timed_out) = status_with_timeout(&mut c, 40.0);
             use std::os::unix::process::ExitStatusExt;
+            if timed_out {
+                rep.violate(
+                    "build-under-trace-never-ended",
+                    format!("[{pname}] start={start} needed={needed}: the traced build (kill point {k}) did not end within 40 s"),
+                    json!({"engine": "K", "project": pname, "start": start, "needed": needed, "k": k, "left_behind": tree_json(&state_of(&snapshot(&b.base())))}),
+                );
+                continue;
+            }
+            let st = st.expect("strace status");
             let killed = st.signal().is_some() || st.code() == Some(137);
             rep.tv(1);
             rep.tr(1);
